@@ -9,6 +9,7 @@ import (
 	"go/types"
 	"sort"
 	"strings"
+	"time"
 
 	"golang.org/x/tools/go/ssa"
 )
@@ -196,6 +197,7 @@ type Engine struct {
 	maxPaths int
 	crcExact int
 	noSlice  bool
+	deadline time.Time
 	lazy     int // >0: inside a merged sub-exploration: byte-local branch conditions fork without a feasibility query
 }
 
@@ -638,6 +640,9 @@ func (e *Engine) Run(init *State) []*State {
 			if s.dead {
 				break
 			}
+			if e.Steps&1023 == 0 && !e.deadline.IsZero() && time.Now().After(e.deadline) {
+				s.cut = "item time budget exceeded"
+			}
 			if s.panicd != "" || s.cut != "" || len(s.frames) == 0 || s.cutDone {
 				done = append(done, s)
 				e.Paths++
@@ -879,20 +884,9 @@ func (e *Engine) step(s *State) []*State {
 		v := e.get(s, f, x.X)
 		if t, isT := v.(*Term); isT && isString(x.Type()) && !t.IsConst() {
 			// string(rune) of a symbolic rune: exact below 0x80, havoc (2..4 bytes) above
-			small := Lt(e.toInt(t, types.Typ[types.Uint32]), CI(0x80), false)
 			site := e.site(x.Pos())
-			return e.forkBool(s, f, small, func(st *State, yes bool) {
-				fr := st.frames[len(st.frames)-1]
-				if yes {
-					fr.locals[x] = &StringV{B: VecBytes([]*Term{Extract(7, 0, t)})}
-					return
-				}
-				st.imprec = append(st.imprec, "string(rune>=0x80) havocked at "+site)
-				arr := ArrVar(e.freshName("runestr"))
-				L := e.boundedVar(st, "runelen", 2, 4)
-				b := &Bytes{Len: L}
-				b.At = func(i *Term) *Term { return Select(arr, i) }
-				fr.locals[x] = &StringV{B: b}
+			return e.forkRune(s, t, site, func(st *State, b *Bytes) {
+				st.frames[len(st.frames)-1].locals[x] = &StringV{B: b}
 			})
 		}
 		set(e.convert(s, x, v))
@@ -1267,8 +1261,9 @@ func (e *Engine) slice(s *State, f *Frame, x *ssa.Slice, set func(Value)) []*Sta
 	if x.High != nil {
 		hi = e.toInt(e.get(s, f, x.High).(*Term), x.High.Type())
 	}
+	var mx *Term
 	if x.Max != nil {
-		panic(engineUnsupported("3-index slice"))
+		mx = e.toInt(e.get(s, f, x.Max).(*Term), x.Max.Type())
 	}
 	site := e.site(x.Pos())
 	switch b := e.get(s, f, x.X).(type) {
@@ -1279,13 +1274,22 @@ func (e *Engine) slice(s *State, f *Frame, x *ssa.Slice, set func(Value)) []*Sta
 		if hi == nil {
 			hi = b.Len
 		}
-		ok, forks := e.mustHold(s, And(Le(CI(0), lo, true), Le(lo, hi, true), Le(hi, b.Cap, true)), "slice bounds out of range at "+site)
+		capT := b.Cap
+		cond := And(Le(CI(0), lo, true), Le(lo, hi, true), Le(hi, b.Cap, true))
+		if mx != nil {
+			cond = And(Le(CI(0), lo, true), Le(lo, hi, true), Le(hi, mx, true), Le(mx, b.Cap, true))
+			capT = mx
+		}
+		ok, forks := e.mustHold(s, cond, "slice bounds out of range at "+site)
 		if !ok {
 			return forks
 		}
-		set(&SliceV{Obj: b.Obj, Off: Add(b.Off, lo), Len: Sub(hi, lo), Cap: Sub(b.Cap, lo)})
+		set(&SliceV{Obj: b.Obj, Off: Add(b.Off, lo), Len: Sub(hi, lo), Cap: Sub(capT, lo)})
 		return forks
 	case *StringV:
+		if mx != nil {
+			panic(engineUnsupported("3-index slice of a string"))
+		}
 		if lo == nil {
 			lo = CI(0)
 		}
@@ -1304,6 +1308,9 @@ func (e *Engine) slice(s *State, f *Frame, x *ssa.Slice, set func(Value)) []*Sta
 			return nil
 		}
 		n := x.X.Type().Underlying().(*types.Pointer).Elem().Underlying().(*types.Array).Len()
+		if mx != nil {
+			panic(engineUnsupported("3-index slice of an array"))
+		}
 		if lo == nil {
 			lo = CI(0)
 		}
@@ -1757,4 +1764,34 @@ func isByteCond(c *Term) bool {
 		return c.Args[0].W == 8
 	}
 	return false
+}
+
+// forkRune: UTF-8 encoding of a symbolic rune: exact for 1- and 2-byte encodings, havoc (3..4 bytes) above.
+func (e *Engine) forkRune(s *State, r *Term, site string, apply func(st *State, b *Bytes)) []*State {
+	r32 := r
+	if r.W > 32 {
+		r32 = Extract(31, 0, r)
+	} else if r.W < 32 {
+		r32 = ZExt(r, 32)
+	}
+	c1 := Lt(r32, C(32, 0x80), false)
+	c2 := And(Not(c1), Lt(r32, C(32, 0x800), false))
+	c3 := And(Not(c1), Not(Lt(r32, C(32, 0x800), false)))
+	return e.forkN(s, []*Term{c1, c2, c3}, func(st *State, i int) {
+		switch i {
+		case 0:
+			apply(st, VecBytes([]*Term{Extract(7, 0, r32)}))
+		case 1:
+			b0 := Bin("bvor", C(8, 0xC0), Extract(7, 0, Bin("bvlshr", r32, C(32, 6))))
+			b1 := Bin("bvor", C(8, 0x80), Bin("bvand", Extract(7, 0, r32), C(8, 0x3F)))
+			apply(st, VecBytes([]*Term{b0, b1}))
+		default:
+			st.imprec = append(st.imprec, "UTF-8 encoding of a rune >= 0x800 havocked at "+site)
+			arr := ArrVar(e.freshName("runestr"))
+			L := e.boundedVar(st, "runelen", 3, 4)
+			b := &Bytes{Len: L}
+			b.At = func(i *Term) *Term { return Select(arr, i) }
+			apply(st, b)
+		}
+	})
 }
